@@ -15,12 +15,120 @@ package pat
 import (
 	"fmt"
 	"go/ast"
+	"go/constant"
 	"go/parser"
 	"go/token"
 	"go/types"
 	"reflect"
 	"strings"
 )
+
+// ---------------------------------------------------------------------------
+// local-variable transparency: a local that is defined exactly once (x := e or
+// var x = e), never re-assigned, never incremented and whose address is never
+// taken stands for its defining expression. When a structured pattern meets an
+// identifier naming such a local, the pattern is matched against the
+// definition instead, so that introducing or removing a temporary does not
+// change a verdict.
+
+var localDefs = map[types.Object]ast.Expr{}
+
+// RegisterPackage records the transparent locals of one package.
+func RegisterPackage(info *types.Info, files []*ast.File) {
+	if info == nil {
+		return
+	}
+	count := map[types.Object]int{}
+	def := map[types.Object]ast.Expr{}
+	opaque := map[types.Object]bool{}
+	objOf := func(e ast.Expr) types.Object {
+		id, ok := e.(*ast.Ident)
+		if !ok {
+			return nil
+		}
+		if o := info.Defs[id]; o != nil {
+			return o
+		}
+		return info.Uses[id]
+	}
+	for _, f := range files {
+		ast.Inspect(f, func(n ast.Node) bool {
+			switch x := n.(type) {
+			case *ast.AssignStmt:
+				for i, l := range x.Lhs {
+					o := objOf(l)
+					if o == nil {
+						continue
+					}
+					if x.Tok == token.DEFINE && info.Defs[l.(*ast.Ident)] != nil {
+						count[o]++
+						if len(x.Lhs) == len(x.Rhs) {
+							def[o] = x.Rhs[i]
+						} else {
+							opaque[o] = true
+						}
+					} else {
+						opaque[o] = true // re-assigned
+					}
+				}
+			case *ast.ValueSpec:
+				for i, nm := range x.Names {
+					o := info.Defs[nm]
+					if o == nil {
+						continue
+					}
+					count[o]++
+					if len(x.Values) == len(x.Names) {
+						def[o] = x.Values[i]
+					} else {
+						opaque[o] = true
+					}
+				}
+			case *ast.IncDecStmt:
+				if o := objOf(x.X); o != nil {
+					opaque[o] = true
+				}
+			case *ast.UnaryExpr:
+				if x.Op == token.AND {
+					if o := objOf(x.X); o != nil {
+						opaque[o] = true
+					}
+				}
+			case *ast.RangeStmt:
+				for _, e := range []ast.Expr{x.Key, x.Value} {
+					if e != nil {
+						if o := objOf(e); o != nil {
+							opaque[o] = true
+						}
+					}
+				}
+			}
+			return true
+		})
+	}
+	for o, e := range def {
+		v, ok := o.(*types.Var)
+		if !ok || v.IsField() || v.Parent() == nil || v.Pkg() == nil || v.Parent() == v.Pkg().Scope() {
+			continue // only function-local variables
+		}
+		if count[o] == 1 && !opaque[o] {
+			localDefs[o] = e
+		}
+	}
+}
+
+// DefOf returns the defining expression of a transparent local, or nil.
+func DefOf(info *types.Info, e ast.Expr) ast.Expr {
+	id, ok := e.(*ast.Ident)
+	if !ok || info == nil {
+		return nil
+	}
+	o := info.Uses[id]
+	if o == nil {
+		return nil
+	}
+	return localDefs[o]
+}
 
 // Binds maps metavariable names to matched nodes.
 type Binds map[string]ast.Node
@@ -120,8 +228,9 @@ func compatible(p, n ast.Node) bool {
 }
 
 type matcher struct {
-	info *types.Info
-	b    Binds
+	info  *types.Info
+	b     Binds
+	depth int
 }
 
 func isMeta(id *ast.Ident) bool {
@@ -173,7 +282,33 @@ func (m *matcher) match(p, n ast.Node) bool {
 			}
 		}
 	}
+	// a literal in the pattern matches any constant expression of equal value
+	// (named constants, other spellings of the number)
+	if bl, ok := p.(*ast.BasicLit); ok && m.info != nil && (bl.Kind == token.INT || bl.Kind == token.CHAR || bl.Kind == token.STRING) {
+		if ne, ok := n.(ast.Expr); ok {
+			if tv, ok := m.info.Types[ne]; ok && tv.Value != nil {
+				pv := constant.MakeFromLiteral(bl.Value, bl.Kind, 0)
+				if pv.Kind() == constant.String {
+					return tv.Value.Kind() == constant.String && constant.StringVal(pv) == constant.StringVal(tv.Value)
+				}
+				if nv := constant.ToInt(tv.Value); nv.Kind() == constant.Int && constant.ToInt(pv).Kind() == constant.Int {
+					return constant.Compare(constant.ToInt(pv), token.EQL, nv)
+				}
+			}
+		}
+	}
 	if reflect.TypeOf(p) != reflect.TypeOf(n) {
+		// a structured pattern against a transparent local: match its definition
+		if id, ok := n.(*ast.Ident); ok && m.depth < 4 {
+			if _, pIsExpr := p.(ast.Expr); pIsExpr {
+				if d := DefOf(m.info, id); d != nil {
+					m.depth++
+					ok := m.match(p, d)
+					m.depth--
+					return ok
+				}
+			}
+		}
 		return false
 	}
 	switch x := p.(type) {
@@ -253,6 +388,40 @@ func (m *matcher) match(p, n ast.Node) bool {
 		y := n.(*ast.CompositeLit)
 		if !m.matchOpt(x.Type, y.Type) || len(x.Elts) != len(y.Elts) {
 			return false
+		}
+		// keyed struct literals match by field name, in any order
+		keyed := len(x.Elts) > 0
+		for _, e := range x.Elts {
+			kv, ok := e.(*ast.KeyValueExpr)
+			if !ok {
+				keyed = false
+				break
+			}
+			if _, ok := kv.Key.(*ast.Ident); !ok {
+				keyed = false
+			}
+		}
+		if keyed {
+			byKey := map[string]ast.Expr{}
+			for _, e := range y.Elts {
+				kv, ok := e.(*ast.KeyValueExpr)
+				if !ok {
+					return false
+				}
+				id, ok := kv.Key.(*ast.Ident)
+				if !ok {
+					return false
+				}
+				byKey[id.Name] = kv.Value
+			}
+			for _, e := range x.Elts {
+				kv := e.(*ast.KeyValueExpr)
+				v, ok := byKey[kv.Key.(*ast.Ident).Name]
+				if !ok || !m.match(kv.Value, v) {
+					return false
+				}
+			}
+			return true
 		}
 		for i := range x.Elts {
 			if !m.match(x.Elts[i], y.Elts[i]) {
